@@ -33,7 +33,13 @@ func runMultiSite(env *cliEnv, c J, emit func(J)) {
 		emit(ev)
 		return
 	}
-	ev["pre"] = observe(pre[0], false)
+	if st, operr := observeSafe(pre[0], false); operr == nil {
+		ev["pre"] = st
+	} else {
+		ev["parseerr"] = "cannot observe the input record"
+		emit(ev)
+		return
+	}
 	inName := "in-" + id
 	ioutil.WriteFile(filepath.Join(env.inputs, inName), []byte(text), 0644)
 	defer os.Remove(filepath.Join(env.inputs, inName))
